@@ -72,7 +72,7 @@ Section Machine2.
 
   Lemma nosfx_inv c : nosfx c = true ->
     is_simple SDot c = false /\ is_simple SLeftBracket c = false /\ is_simple SLeftParen c = false /\
-    is_simple SLeftBrace c = false.
+    is_simple SLeftBrace c = false /\ is_simple KTailstrict c = false.
   Proof.
     unfold nosfx. intros H. repeat (apply andb_true_iff in H as [H ?]).
     repeat match goal with H : negb _ = true |- _ => apply negb_true_iff in H end. auto.
@@ -80,7 +80,7 @@ Section Machine2.
 
   Lemma suffix_none lf' e c t : nosfx c = true -> run (suffix_loop pexpr (S lf) (S lf') e) (c :: t) e (c :: t).
   Proof.
-    intros H. destruct (nosfx_inv c H) as (H1 & H2 & H3 & H4). cbn [suffix_loop].
+    intros H. destruct (nosfx_inv c H) as (H1 & H2 & H3 & H4 & _). cbn [suffix_loop].
     eapply run_orelse_miss; [apply run_eat_miss; exact H1|].
     eapply run_orelse_miss; [apply run_eat_miss; exact H2|].
     eapply run_orelse_miss; [apply run_eat_miss; exact H3|].
